@@ -318,6 +318,22 @@ def one_system(rec, seedt, force_correlated=False):
                           f"are rescaled by {np.array2string(sc, precision=2)}")
 
 
+    # the whole measurement in other units: inputs 2^a and output 2^b times larger or smaller
+    # (exact rescalings): the residual must be exactly 2^b times the base residual
+    ea, eb = int(rng.choice([-150, -60, -20, 20, 60])), int(rng.choice([-150, -60, -20, 20, 100]))
+    unit_in = [np.ascontiguousarray(np.asarray(v, dtype=np.float64) * 2.0 ** ea) for v in inputs]
+    ru = run("other units", lambda: solver(unit_in, np.asarray(y, dtype=np.float64) * 2.0 ** eb,
+                                           fs, **kw))
+    if ru is not None:
+        rec.count("unit_change_pairs")
+        d = np.abs(ru / 2.0 ** eb - base)[sel] / asd_y[sel]
+        rec.ratio("unit_change_err_over_1e-9", float(d.max()) / 1e-9)
+        if not (d.max() <= 1e-9):
+            rec.violation(f"result-depends-on-units:{sname}",
+                          f"{tag}{sname}: inputs x 2^{ea}, output x 2^{eb}: residual / 2^{eb} differs "
+                          f"from the base residual by {d.max():.3e} x asd_y")
+
+
 def collinear_case(rec, seedt):
     """Exactly collinear inputs (a duplicated input, or one input that is a linear combination of
     the others): the input spectral matrix is singular.  The numeric solver must still return a
